@@ -30,7 +30,7 @@ CLAIMS['C20'] = ('other', 'proved: soundness of rejection for the six element-le
                  'bounded: clones accepted, single structural edits rejected, over seeded netlists', _MIX + '; ' + _BN, _MT, 'DESIGN.md 0.1, 6/C20')
 CLAIMS['C10'] = ('other', 'proved (VCs from the real AST, heap-dictionary model): DefaultNamespace/EdifNamespace.no_conflict/update/remove/lookup against the abstract table view, and the NamespaceManager hooks '
                  'add/remove/dictionary_set/dictionary_delete/dictionary_pop/lookup through those contracts: an edit is refused exactly for a sibling owning the name / lower-cased identifier or an illegal EDIF identifier and then changes no table, '
-                 'removal never refuses and drops exactly the element\'s entries, every other entry of every table is unchanged; '
+                 'removal never refuses and drops exactly the element\'s entries, every other entry of every table is unchanged; history level: with the hooks replaced by the table effect derived from those contracts (refinement lemmas), every public IR mutator re-establishes "every table entry is a child carrying that name and every named child is an entry" at every normal and exceptional exit (one policy per history); '
                  'bounded: tables agree with a scan after every call of seeded histories under both policies (incl. clone, parse, policy switches)', _MIX + '; ' + _BN, _MT, 'DESIGN.md 0.1, 6/C10')
 CLAIMS['C07'] = ('other', 'proved: Wire / InnerPin / OuterPin / Port / Cable / Instance .clone return a new, free-standing object of the same class with its own new pins / wires / outer pins, faithful scalar attributes, data and reference, never raise, leave every existing object field-for-field as it was (Instance.clone joins its definition\'s reference set, as documented) and preserve Inv, for all heaps satisfying Inv; '
                  'bounded: netlist / library / definition clones (and the element clones again) against canon equality, identity-disjointness, pointer closure, snapshots and edit independence over seeded designs', _MIX + '; ' + _BN, _MT, 'DESIGN.md 0.1, 6/C07')
